@@ -7,6 +7,7 @@ mod convert;
 mod finalize;
 mod flatten;
 mod group;
+mod ileave;
 mod indep;
 mod locks;
 mod probe;
@@ -43,6 +44,7 @@ fn run_case(case: &Sexp) -> String {
     "conc" => conc::run_conc(body),
     "sched_race" => conc::run_sched_race(body),
     "locks" => locks::run_locks(body),
+    "ileave" => ileave::run_ileave(body),
     "tofuture" => convert::run_tofuture(body),
     "tostream" => convert::run_tostream(body),
     "status" => convert::run_status(body),
